@@ -15,10 +15,11 @@
     pub open spec fn recorded(&self, t: TowerId, l: Locator) -> bool {
         self.dbm.appt_receipts.contains_key((t, l)) || self.dbm.pending.contains((t, l)) || self.dbm.invalid.contains((t, l))
     }
-    // C05 "exactly one of": no pair is in two of the three relations
+    // C05 "exactly one of": for a tower that is not proven misbehaving no pair is in two of the three relations
+    // (flagging a tower stores the offending receipt next to whatever record it had: C05 excludes such towers)
     pub open spec fn classified_once(&self) -> bool {
-        &&& forall|k: (TowerId, Locator)| #[trigger] self.dbm.pending.contains(k) ==> !self.dbm.appt_receipts.contains_key(k) && !self.dbm.invalid.contains(k)
-        &&& forall|k: (TowerId, Locator)| #[trigger] self.dbm.invalid.contains(k) ==> !self.dbm.appt_receipts.contains_key(k)
+        &&& forall|k: (TowerId, Locator)| #[trigger] self.dbm.pending.contains(k) && !self.dbm.proofs.contains_key(k.0) ==> !self.dbm.appt_receipts.contains_key(k) && !self.dbm.invalid.contains(k)
+        &&& forall|k: (TowerId, Locator)| #[trigger] self.dbm.invalid.contains(k) && !self.dbm.proofs.contains_key(k.0) ==> !self.dbm.appt_receipts.contains_key(k)
     }
     // the three relations only grow (nothing that was recorded is forgotten or re-classified)
     pub open spec fn keeps_records_of(&self, o: &WTClient) -> bool {
@@ -34,4 +35,9 @@
     }
     pub open spec fn status_kept(&self, o: &WTClient, t: TowerId) -> bool {
         o.towers@.contains_key(t) ==> self.towers@.contains_key(t) && self.towers@[t].status == o.towers@[t].status
+    }
+
+    // frame: a mutator of the store leaves the retrier table, the channel and the identity alone
+    pub open spec fn rest_untouched(&self, o: &WTClient) -> bool {
+        self.retriers == o.retriers && self.unreachable_towers == o.unreachable_towers && self.user_sk == o.user_sk && self.user_id == o.user_id && self.proxy == o.proxy
     }
